@@ -13,21 +13,15 @@ pub assume_specification [char::is_ascii_alphabetic](c: &char) -> (b: bool);
 pub assume_specification [char::is_ascii_digit](c: &char) -> (b: bool);
 pub assume_specification [char::is_ascii_hexdigit](c: &char) -> (b: bool);
 pub assume_specification<T: PartialEq> [<[T]>::contains](s: &[T], x: &T) -> (b: bool);
+// slice::Iter::all is a total bool for a predicate without a precondition (validate_scheme)
+pub assume_specification<'a, T, P: FnMut(&'a T) -> bool> [<core::slice::Iter<'a, T> as Iterator>::all] (it: &mut core::slice::Iter<'a, T>, pred: P) -> (r: bool)
+    where core::slice::Iter<'a, T>: Sized;
 // a Rust allocation (hence a slice) occupies at most isize::MAX bytes and a char is 4 bytes wide (lex_hostname counts up to len + 1)
 #[verifier::external_body]
 pub broadcast proof fn axiom_char_slice_bytes(s: &[char])
     ensures #[trigger] s@.len() * 8 <= usize::MAX {}
 '''
 
-ASSUMED = '''
-// ---- contracts ASSUMED for functions written with iterator adapters / slice patterns ----
-#[verifier::external_body]
-fn lex_hostport(source: &[char]) -> (r: Option<usize>)
-    ensures r matches Some(n) ==> n <= source@.len(),
-{ unimplemented!() }
-#[verifier::external_body]
-fn validate_scheme(source: &[char]) -> bool { unimplemented!() }
-'''
 
 SOME_LE = 'r matches Some(n) ==> 1 <= n <= source@.len()'
 
@@ -42,10 +36,10 @@ def build(repo):
     U.item('harper-core/src/lexing/mod.rs', 'struct FoundToken', derive=())
     U.raw(LEX_VOCAB.split('// plain-English tokens tile')[0], name='spec:found_ok')
     U.raw(STD + common.POSITION_SPEC, name='trusted:char')
-    U.raw(ASSUMED, name='assumed:url-helpers')
     P = ['C01', 'C02']
     for f in ('valid_scheme_char', 'is_reserved', 'is_safe', 'is_extra', 'is_unreserved', 'is_hex'):
         U.fn(F, f, dict(props=P))
+    U.fn(F, 'validate_scheme', dict(props=P))
     U.fn(F, 'lex_escaped', dict(result='r', props=P, ensures=['r matches Some(n) ==> n == 3 && 3 <= source@.len()']))
     U.fn(F, 'lex_uchar', dict(result='r', props=P, requires=['source@.len() >= 1'], ensures=[SOME_LE]))
     U.fn(F, 'lex_xchar', dict(result='r', props=P, requires=['source@.len() >= 1'], ensures=[SOME_LE]))
@@ -64,6 +58,8 @@ def build(repo):
                                  loops={1: dict(desugar='R10', invariant=['source@.len() * 8 <= usize::MAX', '!__fin ==> passed_chars == __s', '__fin ==> passed_chars == source@.len() + 1']),
                                         2: dict(iter_name='it', invariant=['__ls <= __e <= source@.len()', 'label@ == source@.subrange(__ls as int, __e as int)',
                                                                            'passed_chars == __ls + it.index@', 'source@.len() * 8 <= usize::MAX'])}))
+    # lex_hostport: `source.iter().enumerate().find(|(_, c)| ..).map(|(i, _)| i)` is desugared (R19) into the first-index scan it denotes
+    U.fn(F, 'lex_hostport', dict(result='r', props=P, fwd_find_index=True, ensures=['r matches Some(n) ==> n <= source@.len()']))
     # lex_email_address: the search for the last '@' (`iter().enumerate().rev().find(..)`) is desugared (R11); whether the local part
     # is acceptable (validate_local_part: tuple_windows / iterator code) is an arbitrary total bool here
     U.raw('#[verifier::external_body] fn validate_local_part(local_part: &[char]) -> bool { unimplemented!() }', name='assumed:validate_local_part')
